@@ -50,6 +50,13 @@
 static void oscore_enter_context(coap_context_t *c_context,
                                  oscore_ctx_t *osc_ctx);
 
+/* Number of bytes oscore_cbor_put_unsigned() and friends write for value */
+static size_t
+cbor_head_size(uint64_t value) {
+  return value < 0x18 ? 1 : value < 0x100 ? 2 : value < 0x10000 ? 3 :
+         value < 0x100000000 ? 5 : 9;
+}
+
 static size_t
 compose_info(uint8_t *buffer,
              size_t buf_size,
@@ -60,6 +67,16 @@ compose_info(uint8_t *buffer,
              size_t out_len) {
   size_t ret = 0;
   size_t rem_size = buf_size;
+  size_t id_len = id ? id->length : 0;
+  size_t id_context_len = id_context ? id_context->length : 0;
+
+  /* The CBOR writers do not check for space */
+  if (1 + cbor_head_size(id_len) + id_len +
+      cbor_head_size(id_context_len) + id_context_len +
+      cbor_head_size(alg) +
+      cbor_head_size(type->length) + type->length +
+      cbor_head_size(out_len) > buf_size)
+    return 0;
 
   ret += oscore_cbor_put_array(&buffer, &rem_size, 5);
   ret += oscore_cbor_put_bytes(&buffer,
